@@ -11,7 +11,7 @@ use serde_json::json;
 pub const CLOSE_KINDS: [Kind; 11] = [Kind::Sma, Kind::Ema, Kind::Wma, Kind::Sd, Kind::Mad, Kind::Rsi, Kind::Macd, Kind::Ppo, Kind::Er, Kind::Bb, Kind::Roc];
 pub const ONE_PRICE_KINDS: [Kind; 5] = [Kind::Fast, Kind::Slow, Kind::Tr, Kind::Atr, Kind::Kc];
 
-pub const RULE: &str = "Twin instances in lock-step over bar streams whose five fields vary independently (BARS5: not consistent OHLC, signs mixed) and over valid OHLCV streams: (a) next(&bar) vs next(bar.close()) for SMA/EMA/WMA/SD/MAD/RSI/MACD/PPO/ER/BB/ROC, vs low for MIN, vs high for MAX, within 1e-12 relative (bit-identity reported); (b) one-price bars (o=h=l=c=x) vs the scalar path on x for FAST/SLOW/TR/ATR/KC (KC additionally within a few ulps of the largest |x| for (x+x+x)/3); (c) next(&bar) vs next(&bar') where bar' differs only in fields the indicator is not documented to read (replaced by arbitrary values incl. NaN/inf), bit-equal, all 22 indicators; (d) the harness Bar vs a second user type with a different layout vs ta::DataItem carrying the same numbers, bit-equal, all 22 indicators. Parameters sampled (periods 1..=300, multipliers). Non-trivial: stream longer than the period; distinct by hash of (relation, indicator, params, stream head).";
+pub const RULE: &str = "Twin instances in lock-step over bar streams whose five fields vary independently (BARS5: not consistent OHLC, signs mixed) and over valid OHLCV streams: (a) next(&bar) vs next(bar.close()) for SMA/EMA/WMA/SD/MAD/RSI/MACD/PPO/ER/BB/ROC, vs low for MIN, vs high for MAX, within 1e-12 relative (bit-identity reported); (b) one-price bars (o=h=l=c=x) vs the scalar path on x for FAST/SLOW/TR/ATR/KC (KC additionally within a few ulps of the largest |x| for (x+x+x)/3); (c) next(&bar) vs next(&bar') where bar' differs only in fields the indicator is not documented to read (replaced by arbitrary values incl. NaN/inf), bit-equal, all 22 indicators; (d) the harness Bar vs a second user type with a different layout vs ta::DataItem carrying the same numbers, bit-equal, all 22 indicators; (e) exhaustively, every sequence of a fixed depth over the edge alphabet {-2,-0.0,0.0,0.75,nextafter(0.75),3e-17,3.5} for periods 1..=3, relations (a) and (b). Random streams include exact zeros, signed zeros, one-ulp neighbours and price units from 1e-20 to 1e15. Parameters sampled (periods 1..=300, multipliers). Non-trivial: stream longer than the period; distinct by hash of (relation, indicator, params, stream head).";
 
 const REL: f64 = 1e-12;
 
@@ -87,7 +87,82 @@ fn twin(rep: &mut Report, p: &Params, relation: &str, ops_a: &[Op], ops_b: &[Op]
     true
 }
 
+/// values chosen to sit on the branch points of "robustness" guards: exact +-0, a pair of neighbouring
+/// floats below 1 (range 1.1e-16), tiny magnitudes, a negative value, an ordinary one
+pub const EDGE: [f64; 7] = [-2.0, -0.0, 0.0, 0.75, 0.75 + 1.1102230246251565e-16, 3e-17, 3.5];
+
+fn run_enum(ctx: &Ctx) -> Report {
+    let depth = ctx.pick(5usize, 6usize);
+    let mut jobs = Vec::new();
+    for kind in CLOSE_KINDS.iter().chain([Kind::Min, Kind::Max].iter()).chain(ONE_PRICE_KINDS.iter()) {
+        for n in 1..=3usize {
+            for first in 0..EDGE.len() {
+                jobs.push((*kind, n, first));
+            }
+        }
+    }
+    par_run(jobs, ctx.threads, move |(kind, n, first), rep| {
+        let mut p = Params::new1(*kind, *n);
+        match kind {
+            Kind::Macd | Kind::Ppo => p.p = [*n, *n + 1, 2],
+            Kind::Slow => p.p = [*n, 2, 0],
+            Kind::Bb | Kind::Kc => p.k = 2.0,
+            _ => {}
+        }
+        let one_price = ONE_PRICE_KINDS.contains(kind);
+        fn rec(depth: usize, seq: &mut Vec<f64>, f: &mut dyn FnMut(&[f64])) {
+            f(seq);
+            if seq.len() < depth {
+                for v in EDGE {
+                    seq.push(v);
+                    rec(depth, seq, f);
+                    seq.pop();
+                }
+            }
+        }
+        let mut seq = vec![EDGE[*first]];
+        rec(depth, &mut seq, &mut |xs| {
+            // only full-depth sequences are run (every prefix is compared step by step inside `twin`)
+            if xs.len() < depth {
+                return;
+            }
+            let ops_x: Vec<Op> = xs.iter().map(|x| Op::NextF(*x)).collect();
+            let ops_b: Vec<Op> = xs
+                .iter()
+                .enumerate()
+                .map(|(i, x)| {
+                    if one_price {
+                        Op::NextBar(Bar { o: *x, h: *x, l: *x, c: *x, v: i as f64 })
+                    } else {
+                        // the documented field carries x; every other field carries something else
+                        let mut b = Bar { o: 9.0 - i as f64, h: 7.5, l: -1.25, c: 4.0 + i as f64, v: 3.0 };
+                        match kind {
+                            Kind::Min => b.l = *x,
+                            Kind::Max => b.h = *x,
+                            _ => b.c = *x,
+                        }
+                        Op::NextBar(b)
+                    }
+                })
+                .collect();
+            let abs_per_m = if *kind == Kind::Kc { 8.0 * EPS * (1.0 + p.k.abs()) } else { 0.0 };
+            twin(rep, &p, if one_price { "one_price_bar_vs_scalar" } else { "bar_vs_documented_field" }, &ops_b, &ops_x, REL, abs_per_m, false);
+            rep.count("enum.edge_value_sequences");
+            rep.distinct_by_construction += 1;
+        });
+    })
+}
+
 pub fn run(ctx: &Ctx) -> Report {
+    let mut rep = run_random(ctx);
+    rep.merge(run_enum(ctx));
+    if ctx.only.is_none() && rep.counters.get("enum.edge_value_sequences").copied().unwrap_or(0) == 0 {
+        rep.inconclusive.push("coverage floor missed: enum.edge_value_sequences = 0".into());
+    }
+    rep
+}
+
+fn run_random(ctx: &Ctx) -> Report {
     let njobs = ctx.pick(3200, 64000);
     let seed = ctx.seed;
     let maxlen = ctx.pick(1500usize, 6000usize);
@@ -117,8 +192,16 @@ pub fn run(ctx: &Ctx) -> Report {
                 rep.distinct_case(hash_f64s(1000 + *kind as u64 * 7 + p.p[0] as u64 * 131, &head5));
             }
         }
-        // (b) one-price bars vs scalar path
-        let xs: Vec<f64> = five.iter().map(|b| b.c).collect();
+        // (b) one-price bars vs scalar path; some values are repeated or followed by their
+        // neighbouring float so that windows with a zero or one-ulp range occur
+        let mut xs: Vec<f64> = five.iter().map(|b| b.c).collect();
+        for i in 1..xs.len() {
+            match rng.below(12) {
+                0 => xs[i] = xs[i - 1],
+                1 => xs[i] = f64::from_bits(xs[i - 1].to_bits().wrapping_add(1)),
+                _ => {}
+            }
+        }
         let ops_one: Vec<Op> = xs.iter().map(|x| Op::NextBar(Bar { o: *x, h: *x, l: *x, c: *x, v: rng.f() })).collect();
         let ops_x: Vec<Op> = xs.iter().map(|x| Op::NextF(*x)).collect();
         for kind in ONE_PRICE_KINDS {
